@@ -5,8 +5,10 @@
    the inputs on which one of them *occurs*: the static classes are decided on the expression, the dynamic ones
    on the candidates the reference evaluation actually visits.
 
-   static   (a)  a predicate whose value is a number but not a literal            -> pred_ok: top type must be boolean
-            (b)  and / or with a non-boolean operand                              -> ty_of
+   static   [(a) a predicate whose value is a non-literal number, and (b) and / or with non-boolean operands, were excluded
+             until /repo commits 6531d56 and 6c8d927 repaired them; they are inside in_subset now: a predicate may have
+             type number (position test) and the operands of and / or any type but a bare attribute value, which the
+             parser never puts there]
             (f)  <, <=, >, >= on anything but numbers                             -> ty_of
             (i)  the text() function (and concat, which the proofs do not cover yet) -> ty_of
             (k)  = / != between values of different kinds (number with string or attribute, boolean with anything else)
@@ -37,7 +39,7 @@ Fixpoint ty_of (e : expr) : option ty :=
       match ty_of l, ty_of r with
       | Some a, Some b =>
           match o with
-          | OpAnd | OpOr => if ty_eqb a TBool && ty_eqb b TBool then Some TBool else None
+          | OpAnd | OpOr => if negb (ty_eqb a TAttr) && negb (ty_eqb b TAttr) then Some TBool else None
           | OpEq | OpNe =>
               if (ty_eqb a TNum && ty_eqb b TNum) || (ty_eqb a TBool && ty_eqb b TBool) || (stringy a && stringy b)
               then Some TBool else None
@@ -65,7 +67,7 @@ Fixpoint bound (m : nsmap) (e : expr) : bool :=
   | Function _ args => (fix go (l : list expr) : bool := match l with [] => true | x :: r => bound m x && go r end) args
   end.
 Definition pred_ok (m : nsmap) (e : expr) : bool :=
-  match ty_of e with Some TBool => bound m e | _ => false end.
+  match ty_of e with Some TBool | Some TNum => bound m e | _ => false end.
 
 (* ---- dynamic classes, decided on one candidate *)
 Definition tag_attrs (c : nd) : list attr := payload_attrs (ipayload (snd c)).
